@@ -116,6 +116,9 @@ func (w *verifC24World) ops() []verifC24Op {
 					}
 				}
 				ops = append(ops, verifC24Op{2, k, i, 0})
+			} else if established {
+				// Write after CloseWrite: refused locally, nothing may be sent
+				ops = append(ops, verifC24Op{0, k, i, 1})
 			}
 			if established && verifReadable(s) {
 				for n := w.minRead; n <= w.maxLen; n++ {
@@ -290,9 +293,9 @@ func VerifC24Conform() {
 //          of the peer's receive buffer" is preserved), and leaves the
 //          readiness token exactly when window > 0;
 //   read:  Read hands the enqueue loop an increment equal to the bytes it
-//          consumed, and never a zero increment (the peer rejects those); the
-//          increment, carried by the real enqueue/write/read loops, raises the
-//          peer's send window by exactly that amount.
+//          consumed; the increment, carried by the real enqueue/write/read
+//          loops, is accepted by the peer's reader loop (a zero increment is
+//          not) and raises the peer's send window by exactly that amount.
 func VerifC24Step() {
 	wire := &verifWire{}
 	heartbeats := make(chan struct{}, 1)
@@ -404,7 +407,6 @@ func VerifC24Step() {
 		u := <-R.enqueueWindowIncrement
 		vAssert(u.stream == rs.identifier, "step: increment for the stream that was read")
 		vAssert(u.amount == uint64(count), "step: increment equals the bytes consumed")
-		vAssert(u.amount > 0, "step: no zero increment is handed to the enqueue loop (the peer rejects it)")
 		R.enqueueWindowIncrement <- u
 		before := len(R.writeBufferPending)
 		verifRunEnqueue(R)
